@@ -33,6 +33,8 @@ type Obligation struct {
 	Lemma   *Lemma
 	// replay support
 	ModelVars map[string]*Term // name -> term whose model value is wanted
+	Forced    string           // status decided outside the solver (grammar obligations: witness search on the real code)
+	Replay    *ReplayResult    // replay already performed (grammar witnesses)
 }
 
 type Engine struct {
@@ -54,6 +56,7 @@ type Engine struct {
 	Debug       bool
 	typeInvs    map[string]*typeInvInfo
 	boxMode     int
+	pegFacts    map[string]*actionFacts
 	heapIds     map[int]*Term // heap-id constant (by term id of the id constant) -> array term
 	heapIdOf    map[int]*Term // array term id -> heap-id constant
 }
